@@ -178,6 +178,107 @@ Section Runs.
   Qed.
 End Runs.
 
+(* ------------------------------------------------------------------ (4b) every run returns *)
+(* the hypotheses of compile_package_linked_total move along bundle_equiv and along an extensionally equal is_local *)
+Section Transfer.
+  Context {F D : Type}.
+  Variable convert : env -> @srcfile F -> bytes -> D.
+  Variable owner : bytes -> bytes.
+  Variable loc1 loc2 : bytes -> bool.
+  Variable ext_file : bytes -> option D.
+  Variable deps_of : D -> list bytes.
+  Variable b1 b2 : @bundle F.
+  Hypothesis He : bundle_equiv b1 b2.
+  Hypothesis Hv : valid b1.
+  Hypothesis Hloc : forall p, loc1 p = loc2 p.
+
+  Lemma find_pkg_equiv n f2 : find_pkg n b2 = Some f2 -> exists f1, find_pkg n b1 = Some f1 /\ Permutation f1 f2.
+  Proof.
+    intro H. pose proof (He n) as Hn. rewrite H in Hn. destruct (find_pkg n b1) as [f1|]; [|contradiction]. eauto.
+  Qed.
+  Lemma find_pkg_present n : find_pkg n b1 <> None -> find_pkg n b2 <> None.
+  Proof.
+    intro H. pose proof (He n) as Hn. destruct (find_pkg n b1); [|congruence]. destruct (find_pkg n b2); [discriminate|contradiction].
+  Qed.
+  Lemma dep_names_perm n (f1 f2 : list (@srcfile F)) : Permutation f1 f2 -> dep_names n f1 = dep_names n f2.
+  Proof. intro Hp. unfold dep_names. rewrite (collect_deps_perm n f1 f2 Hp). reflexivity. Qed.
+
+  Lemma well_founded_deps_equiv rank : well_founded_deps b1 rank -> well_founded_deps b2 rank.
+  Proof.
+    intros Hw n f2 H d Hd. destruct (find_pkg_equiv n f2 H) as (f1 & E1 & Hp).
+    rewrite <- (dep_names_perm n f1 f2 Hp) in Hd. destruct (Hw n f1 E1 d Hd) as [A B].
+    split; [apply find_pkg_present; exact A|exact B].
+  Qed.
+  Lemma spec_lookup_equiv p :
+    spec_lookup convert owner loc2 ext_file b2 p = spec_lookup convert owner loc1 ext_file b1 p.
+  Proof. unfold spec_lookup. rewrite <- Hloc, (spec_pkg_equiv convert b1 b2 He Hv). reflexivity. Qed.
+  Lemma owner_ok_equiv : owner_ok convert owner loc1 b1 -> owner_ok convert owner loc2 b2.
+  Proof.
+    intros Ho q o d H. rewrite <- (spec_pkg_equiv convert b1 b2 He Hv) in H. rewrite <- Hloc. exact (Ho q o d H).
+  Qed.
+  Lemma imports_wf_equiv frank :
+    imports_wf convert owner loc1 ext_file deps_of b1 frank -> imports_wf convert owner loc2 ext_file deps_of b2 frank.
+  Proof.
+    intros [Hw Hx]. split.
+    - intros q f2 o d Hf H dep Hdep. destruct (find_pkg_equiv q f2 Hf) as (f1 & E1 & Hp).
+      rewrite <- (spec_pkg_equiv convert b1 b2 He Hv) in H.
+      destruct (Hw q f1 o d E1 H dep Hdep) as (A & B & C). rewrite spec_lookup_equiv, <- Hloc, <- (dep_names_perm q f1 f2 Hp).
+      split; [exact A|split; [exact B|exact C]].
+    - intros n d Hl Hd dep Hdep. rewrite <- Hloc in Hl. destruct (Hx n d Hl Hd dep Hdep) as (A & B & C).
+      rewrite <- Hloc. split; [exact A|split; [exact B|exact C]].
+  Qed.
+End Transfer.
+
+Section RunsTotal.
+  Variable bd : J5sAst.bundle.
+  Variable exts : list Desc.dfile.
+  Variable pkgs : list bytes.
+  Notation b0 := (flat_bundle pkgs (src_files bd)).
+  Notation conv := (cmpa_convert bd).
+
+  (* the run with the canonical listings, identity orders, no history *)
+  Definition ref_run (fuel lfuel : nat) : run :=
+    mkRun pkgs (src_files bd) (fun _ l => l) (fun _ l => l) (fun _ l => l) fuel lfuel [] (fun l => l).
+  Lemma ref_run_ok fuel lfuel : run_ok pkgs bd (ref_run fuel lfuel).
+  Proof. unfold run_ok, perm_fun. cbn. repeat split; intros; apply Permutation_refl. Qed.
+
+  (* CompilePackage returns in EVERY run, and returns the same linked files *)
+  Theorem compile_run_total rank frank n :
+    valid b0 -> well_founded_deps b0 rank -> owner_ok conv split_owner (is_local_of pkgs) b0 ->
+    imports_wf conv split_owner (is_local_of pkgs) (c_ext_file exts) c_deps_of b0 frank ->
+    find_pkg n b0 <> None ->
+    exists out, forall r, run_ok pkgs bd r -> (rank n < r_fuel r)%nat ->
+      (forall o, In o (map fst (p_files (spec_pkg conv b0 n))) -> (frank o < r_lfuel r)%nat) ->
+      compile_run bd exts r n = Some out.
+  Proof.
+    intros Hv Hw Ho Hi Hf.
+    assert (Hevery : forall r, run_ok pkgs bd r -> (rank n < r_fuel r)%nat ->
+      (forall o, In o (map fst (p_files (spec_pkg conv b0 n))) -> (frank o < r_lfuel r)%nat) ->
+      exists out, compile_run bd exts r n = Some out).
+    { intros r Hr Hfu Hlf. pose proof (run_bundle_equiv bd pkgs r Hr) as He.
+      destruct Hr as (Hp & Hfl & P1 & P2 & P3 & _).
+      set (br := flat_bundle (r_pkgs r) (r_files r)) in *.
+      assert (Hloc : forall p, is_local_of pkgs p = is_local_of (r_pkgs r) p).
+      { intro p. apply is_local_of_perm. apply Permutation_sym. exact Hp. }
+      destruct (compile_package_linked_total conv split_owner (is_local_of (r_pkgs r)) (c_ext_file exts) c_deps_of c_link1
+                  br rank frank (valid_equiv _ _ He Hv) (well_founded_deps_equiv _ _ He rank Hw)
+                  (owner_ok_equiv conv split_owner _ _ _ _ He Hv Hloc Ho)
+                  (imports_wf_equiv conv split_owner _ _ (c_ext_file exts) c_deps_of _ _ He Hv Hloc frank Hi)
+                  n (find_pkg_present _ _ He n Hf)) as [out H].
+      specialize (H (r_lf r) (r_rd r) (r_rf r) P1 P2 P3 (r_fuel r) (r_lfuel r) (r_earlier r) Hfu).
+      destruct H as (pc & lc & E).
+      - intros o Hin. apply Hlf. rewrite (spec_pkg_equiv conv _ _ He Hv). exact Hin.
+      - exists out. unfold compile_run. fold br. cbv zeta in E. rewrite E. reflexivity. }
+    set (lf0 := S (list_max (map frank (map fst (p_files (spec_pkg conv b0 n)))))).
+    assert (Hl0 : forall o, In o (map fst (p_files (spec_pkg conv b0 n))) -> (frank o < lf0)%nat).
+    { intros o Hin. unfold lf0. pose proof (proj1 (list_max_le (map frank (map fst (p_files (spec_pkg conv b0 n)))) _) (le_n _)) as Hall.
+      rewrite Forall_forall in Hall. specialize (Hall (frank o) (in_map frank _ _ Hin)). lia. }
+    destruct (Hevery (ref_run (S (rank n)) lf0) (ref_run_ok _ _) (Nat.lt_succ_diag_r _) Hl0) as [out0 E0].
+    exists out0. intros r Hr Hfu Hlf. destruct (Hevery r Hr Hfu Hlf) as [out E].
+    rewrite E. f_equal. exact (compile_run_deterministic bd exts pkgs r (ref_run (S (rank n)) lf0) n out out0 Hv Hr (ref_run_ok _ _) E E0).
+  Qed.
+End RunsTotal.
+
 (* ------------------------------------------------------------------ (5) Range orders *)
 Definition keys_distinct (o : list PF.dopt) : Prop :=
   forall a c, In a o -> In c o -> BR.dopt_key a = BR.dopt_key c -> a = c.
@@ -364,4 +465,22 @@ Proof.
   rewrite (compile_run_deterministic bd exts pkgs r1 r2 n out1 out2 Hv H1 H2 C1 C2).
   unfold render. apply List.map_ext. intro x. f_equal. unfold print_linked.
   apply reorder_prints_the_same; [apply H1|apply H2|apply to_print_ok; exact Ha].
+Qed.
+
+(* TOTAL form: on a valid bundle whose package dependencies and file imports are present and acyclic (the hypotheses of
+   C14_compile_package_linked_total, stated for the canonical listing) there is ONE output that EVERY run returns *)
+Theorem output_total_deterministic bd exts ann pkgs rank frank n :
+  valid (flat_bundle pkgs (src_files bd)) -> well_founded_deps (flat_bundle pkgs (src_files bd)) rank ->
+  owner_ok (cmpa_convert bd) split_owner (is_local_of pkgs) (flat_bundle pkgs (src_files bd)) ->
+  imports_wf (cmpa_convert bd) split_owner (is_local_of pkgs) (c_ext_file exts) c_deps_of (flat_bundle pkgs (src_files bd)) frank ->
+  find_pkg n (flat_bundle pkgs (src_files bd)) <> None -> ann_ok ann ->
+  exists o, forall r, run_ok pkgs bd r -> (rank n < r_fuel r)%nat ->
+    (forall f, In f (map fst (p_files (spec_pkg (cmpa_convert bd) (flat_bundle pkgs (src_files bd)) n))) -> (frank f < r_lfuel r)%nat) ->
+    compile_and_print bd exts ann r n = Some o.
+Proof.
+  intros Hv Hw Ho Hi Hf Ha.
+  destruct (compile_run_total bd exts pkgs rank frank n Hv Hw Ho Hi Hf) as [out H].
+  exists (render ann (fun l => l) out). intros r Hr Hfu Hlf. unfold compile_and_print. rewrite (H r Hr Hfu Hlf). f_equal.
+  unfold render. apply List.map_ext. intro x. f_equal. unfold print_linked.
+  apply reorder_prints_the_same; [apply Hr|intro l; apply Permutation_refl|apply to_print_ok; exact Ha].
 Qed.
